@@ -39,9 +39,12 @@ func sink(pkg, ev string, a ...int64) {
 		trMu.Unlock()
 		return
 	}
-	b, _ := json.Marshal(Event{P: pkg, E: ev, A: append([]int64{}, a...)})
-	trEvents = append(trEvents, b)
-	n := len(trEvents)
+	trCount++
+	if !trCountOnly {
+		b, _ := json.Marshal(Event{P: pkg, E: ev, A: append([]int64{}, a...)})
+		trEvents = append(trEvents, b)
+	}
+	n := trCount
 	trMu.Unlock()
 	if n > maxEvents {
 		// remembered here as well: the library may recover the panic (ScanJPEG, ParseXmp do) and turn it into an error
@@ -53,9 +56,15 @@ func sink(pkg, ev string, a ...int64) {
 // stalled is set when the event cap aborts a call (see sink).
 var stalled string
 
-func startTrace() {
+var (
+	trCount     int
+	trCountOnly bool
+)
+
+func startTrace(countOnly bool) {
 	trMu.Lock()
 	stalled = ""
+	trCount, trCountOnly = 0, countOnly
 	trEvents = nil
 	trOn = true
 	trMu.Unlock()
